@@ -132,6 +132,19 @@ def build(ld, prog, fns=None, stage_prefix='s', hook=None):
                 ds = ld.concatenate(ds, mid, last)
             else:
                 ds = ld.concatenate((ds, mid, last))
+        elif k in refmodel.NARY:
+            if m is None:
+                raise Unsupported('n-ary operand needs the model')
+            pa, pb = refmodel.nary_operand_programs(m, op)
+            da = ds.map(fns.fn('z', stage + 'z')) if pa == 'selfmap' else \
+                build(ld, pa, fns, stage_prefix=stage + 'a')
+            db = build(ld, pb, fns, stage_prefix=stage + 'b')
+            if k == 'intersperse3':
+                ds = ds.intersperse(da, db) if op[2] == 'method' else ld.intersperse(ds, da, db)
+            elif k == 'zip3':
+                ds = ds.zip(da, db) if op[2] == 'method' else ld.zip(ds, da, db)
+            else:
+                ds = ds.key_zip(da, db) if op[2] == 'method' else ld.key_zip(ds, da, db)
         elif k == 'groupby':
             mod = op[1]
             gf = fns.groupfn(mod, stage)
@@ -193,6 +206,8 @@ def build(ld, prog, fns=None, stage_prefix='s', hook=None):
                 elif k == 'concat3':
                     m = refmodel.apply(m, op, tuple(
                         refmodel.run(x) for x in refmodel.concat3_operands(op[1])))
+                elif k in refmodel.NARY:
+                    m = refmodel.apply(m, op, refmodel.nary_operands(m, op))
                 else:
                     m = refmodel.apply(m, op, operand_m)
             except (Unsupported, Skip):
@@ -252,7 +267,10 @@ def alphabet(n, kind, small=False):
             ('apply_eager', 'h'), ('apply_lazy', 'h')]
     ops += [('concat3', kind, 'method'), ('concat3', kind, 'method-list'),
             ('concat3', kind, 'function'), ('concat3', kind, 'function-tuple'),
-            ('groupby', 2, 0), ('groupby', 2, 1), ('groupby', 3, 2)]
+            ('groupby', 2, 0), ('groupby', 2, 1), ('groupby', 3, 2),
+            ('intersperse3', kind, 'method'), ('intersperse3', kind, 'function'),
+            ('zip3', kind, 'method'), ('zip3', kind, 'function'),
+            ('key_zip3', kind, 'method'), ('key_zip3', kind, 'function')]
     return ops
 
 
